@@ -7,10 +7,15 @@ import (
 	"github.com/Oneledger/protocol/consensus"
 	"github.com/Oneledger/protocol/data/balance"
 	"github.com/Oneledger/protocol/data/delegation"
+	"github.com/Oneledger/protocol/data/network_delegation"
 
 	"verif/harness"
 	"verif/txs/stk"
+	"verif/txs/xch"
 )
+
+// plainStoreRuntime: storage[0] = calldata[0:32]; stop  (unlike xch.StoreRuntime it also stores zero)
+var plainStoreRuntime = []byte{0x60, 0x00, 0x35, 0x60, 0x00, 0x55, 0x00}
 
 func init() { Register(multiScenarios) }
 
@@ -102,6 +107,67 @@ func multiScenarios() []*harness.Scenario {
 			Prefix: func(w *harness.World) []harness.BlockSpec { return []harness.BlockSpec{{}, {}} },
 			Target: send("mm-send"),
 			After:  4,
+		},
+		{
+			// non-initial state: a chain restarted from an exported state with undelegations in flight
+			Kind: action.SEND.String(), Note: "multi-genesis-with-pending-undelegations-at-3-and-30",
+			World: func() *harness.World {
+				w := harness.NewWorld("multi-pending", 4, 3)
+				w.Mutate = func(w *harness.World, st *consensus.AppState) {
+					mk := func(u *harness.Account, olt int64, h int64) network_delegation.PendingDelegator {
+						a := u.Addr
+						c := harness.OLT.NewCoinFromAmount(harness.OLTUnits(olt))
+						return network_delegation.PendingDelegator{Address: &a, Amount: &c, Height: h}
+					}
+					st.NetDelegators.PendingList = append(st.NetDelegators.PendingList,
+						mk(w.Users[0], 100, 3), mk(w.Users[1], 250, 30), mk(w.Users[2], 70, 4))
+				}
+				return w
+			},
+			Prefix: func(w *harness.World) []harness.BlockSpec { return []harness.BlockSpec{{}, {}} },
+			Target: send("mpu-send"),
+			After:  4,
+		},
+		{
+			// an EVM call that clears a storage slot (non-zero -> zero): the only way to a gas refund
+			Kind: action.OLVM.String(), Note: "multi-call-clears-storage-slot-gas-refund",
+			World: func() *harness.World { return harness.NewWorld("multi-refund", 4, 3) },
+			Prefix: func(w *harness.World) []harness.BlockSpec {
+				ea := w.EthUsers[0]
+				return []harness.BlockSpec{{},
+					{Txs: []*harness.TxSpec{xch.OLVMCreate(w, ea, 0, harness.Amt("0"), xch.InitCode(plainStoreRuntime))}},
+					{Txs: []*harness.TxSpec{xch.OLVMCall(w, ea, xch.ContractAddr(ea, 0), 1, harness.Amt("0"), xch.Word(1))}},
+				}
+			},
+			Target: func(w *harness.World) *harness.TxSpec {
+				ea := w.EthUsers[0]
+				return xch.OLVMCall(w, ea, xch.ContractAddr(ea, 0), 2, harness.Amt("0"), xch.Word(0))
+			},
+			After: 2,
+		},
+		{
+			// native and EVM transactions touching the same account in one block, under a block gas limit
+			Kind: action.OLVM.String(), Note: "multi-native-and-evm-same-account-one-block-with-block-gas-limit",
+			World: func() *harness.World {
+				w := harness.NewWorld("multi-mixed", 4, 3)
+				w.MaxGas = 2000000
+				return w
+			},
+			Prefix: func(w *harness.World) []harness.BlockSpec {
+				ea, eb := w.EthUsers[0], w.EthUsers[1]
+				return []harness.BlockSpec{{},
+					{Txs: []*harness.TxSpec{
+						harness.Send(w.Users[0], ea.Addr, harness.Coin("OLT", harness.OLTUnits(500)), "mx-s1"),
+						xch.OLVMSend(w, ea, eb.Addr, 0, harness.OLTUnits(3)),
+						harness.Send(w.Users[1], eb.Addr, harness.Coin("OLT", harness.OLTUnits(20)), "mx-s2"),
+						xch.OLVMSend(w, eb, ea.Addr, 0, harness.OLTUnits(1)),
+					}},
+				}
+			},
+			Target: func(w *harness.World) *harness.TxSpec {
+				return xch.OLVMSend(w, w.EthUsers[0], w.Users[2].Addr, 1, harness.OLTUnits(2))
+			},
+			After: 2,
 		},
 		{
 			Kind: action.SEND.String(), Note: "multi-long-time-step-and-absent-validator",
